@@ -15,6 +15,10 @@ class RLVParser:
     def is_rlv_message(msg: Message) -> bool:
         chat: str = msg["ChatData"]["Message"]
         chat_type: int = msg["ChatData"]["ChatType"]
+        # Message may not be a `str` if it wasn't null-terminated or valid UTF-8,
+        # that can't be an RLV command.
+        if not isinstance(chat, str):
+            return False
         return chat and chat.startswith("@") and chat_type == ChatType.OWNER
 
     @staticmethod
